@@ -230,7 +230,13 @@ class DirectoryComputation(MessagePassingComputation):
         if msg.publish:
             self.logger.info('publication of replica %s hosted on %s',
                              msg.replica, msg.agent)
-            self.directory.register_replica(msg.replica, msg.agent)
+            try:
+                self.directory.register_replica(msg.replica, msg.agent)
+            except UnknownComputation:
+                # the computation has been unregistered in the meantime
+                self.logger.warning('Replica published for unknown '
+                                    'computation %s on %s',
+                                    msg.replica, msg.agent)
         else:
             self.logger.info('un-publication of replica %s hosted on %s',
                              msg.replica, msg.agent)
@@ -611,9 +617,15 @@ class DiscoveryComputation(MessagePassingComputation):
 
     def _on_computation_removed(self, _: DiscoveryName,
                                 msg: UnPublishComputationMessage):
-        self.discovery.unregister_computation(
-            msg.computation, msg.agent, publish=False)
-        pass
+        try:
+            self.discovery.unregister_computation(
+                msg.computation, msg.agent, publish=False)
+        except ValueError:
+            # Late notification: the computation has been registered on
+            # another agent since.
+            self.logger.info('Ignoring removal of %s from %s : %s',
+                             msg.computation, msg.agent,
+                             self.discovery.computation_agent(msg.computation))
 
     def _on_replica_publish(self, _, msg: PublishReplicaMessage):
         if msg.publish:
